@@ -1,6 +1,7 @@
 package e3dial
 
 import (
+	"net"
 	"fmt"
 	"math/rand/v2"
 	"sort"
@@ -268,6 +269,21 @@ func genC17(s uint64, idx int) *Plan {
 		p.Outcomes[ip] = o
 	}
 	p.Twin = idx%8 == 3 && !p.CallerNil
+	if idx%8 == 7 && len(p.Hosts) >= 2 && net.ParseIP(p.Hosts[len(p.Hosts)-1].Host) == nil && p.Hosts[len(p.Hosts)-1].Host != "localhost" && net.ParseIP(p.Hosts[0].Host) == nil && p.Hosts[0].Host != "localhost" {
+		// the lookup for the LAST name never comes back, while every address of
+		// the first name connects at once: Dial has its connection long before
+		last := p.Hosts[len(p.Hosts)-1]
+		q := last.Host
+		if last.Port != 0 && last.Port != 443 && last.Port != 80 {
+			q = fmt.Sprintf("_%d._https.%s", last.Port, last.Host)
+		}
+		p.Zone.Fail = map[string]string{q + "/HTTPS": "stall"}
+		for ip, o := range p.Outcomes {
+			o.First, o.Second, o.LatNs = "ok", "", o.LatNs%int64(50*time.Millisecond)+1
+			p.Outcomes[ip] = o
+		}
+		p.RequireECH, p.PublicName = false, ""
+	}
 	if via {
 		// reached through ech.Transport, as an http.Client does
 		p.ViaTransport, p.Network = true, "tcp"
